@@ -3,7 +3,7 @@
 TLC checks the transcribed Douglas-Peucker recursion and Visvalingam elimination loop against the acceptance predicate
 on every lattice track (and refutes the pinned variants: zero-length chord, eligible first fix).  The driver simplifies
 for real every track of 2..4 (thorough 5) fixes of a 3x3 lattice - collinear runs, consecutive duplicates, revisits and
-closed loops included - with five tolerances and random longer tracks; the output is recorded as the list of input
+closed loops included - with seven tolerances (two of them between the side and the diagonal of the lattice boxes) and random longer tracks; the output is recorded as the list of input
 fixes kept (fixes carry a hidden z / timestamp tag) and judged by TLC.  A call that raises is rejected."""
 import itertools
 import random
@@ -11,7 +11,8 @@ from fractions import Fraction
 
 import core
 
-TOLS = [Fraction(1, 10), Fraction(1, 2), Fraction(1), Fraction(3, 2), Fraction(10)]
+# 6/5 and 11/5 lie between the larger side and the diagonal of the 1 x 1 and 2 x 2 (2 x 1) boxes of the lattice
+TOLS = [Fraction(1, 10), Fraction(1, 2), Fraction(1), Fraction(6, 5), Fraction(3, 2), Fraction(11, 5), Fraction(10)]
 
 
 def call(pts, tol, mode):
@@ -79,13 +80,19 @@ def job_random(args):
         if rnd.random() < 0.3:
             pts[-1] = pts[0]                                          # closed loop
         tol = rnd.choice(tols)
+        if rnd.random() < 0.3:                # a tolerance between the larger side and the diagonal of the track's bounding box
+            w = max(p[0] for p in pts) - min(p[0] for p in pts)
+            h = max(p[1] for p in pts) - min(p[1] for p in pts)
+            m, d = max(w, h), (w * w + h * h) ** 0.5
+            if d > m > 0:
+                tol = Fraction(int((m + (d - m) * rnd.random()) * 100) + 1, 100)
         out.append(call(pts, tol, "dp"))
         out.append(call(pts, tol, "visv"))
     return out
 
 
 def mc_cfg(maxfix, legacy=False, invs=("DPAccepted", "VisAccepted")):
-    return ("SPECIFICATION Spec\nCONSTANTS\n  MaxFix = %d\n  LatS = 2\n  Tol2x100 = {1, 25, 100, 225, 10000}\n  Legacy = %s\n  Mode = \"mc\"\n"
+    return ("SPECIFICATION Spec\nCONSTANTS\n  MaxFix = %d\n  LatS = 2\n  Tol2x100 = {1, 25, 100, 144, 225, 484, 10000}\n  Legacy = %s\n  Mode = \"mc\"\n"
             % (maxfix, "TRUE" if legacy else "FALSE") + "".join("INVARIANT %s\n" % i for i in invs) + "CHECK_DEADLOCK FALSE\n")
 
 
@@ -102,8 +109,8 @@ def klass(e):
 def run(ctx):
     quick = ctx.tier == "quick"
     mf = 4 if quick else 5
-    ctx.rule = ("TLC: transcribed DP and Visvalingam accepted on every track of 2..%d fixes of the 3x3 lattice x 5 tolerances; "
-                "pinned variants refuted. Binding: simplify(DP | VISVALINGAM) on every such track x 5 tolerances and random "
+    ctx.rule = ("TLC: transcribed DP and Visvalingam accepted on every track of 2..%d fixes of the 3x3 lattice x 7 tolerances; "
+                "pinned variants refuted. Binding: simplify(DP | VISVALINGAM) on every such track x 7 tolerances and random "
                 "tracks of 2-12 fixes (duplicates, collinear runs, revisits, closed loops) x 10 tolerances; outputs recorded "
                 "as kept input positions and judged by AcceptSimplification. Non-trivial = distinct (track, tolerance, mode) "
                 "with a closed loop, a duplicate or at least one dropped fix." % (mf, ))
